@@ -141,7 +141,7 @@ func init() {
 		},
 		Subs: []h.Sub{
 			{
-				Name: "mercator-inverse", Count: h.Fixed(100000, 10000000),
+				Name: "mercator-inverse", Count: h.Fixed(100000, 100000000),
 				Run: func(c *h.Ctx, idx uint64, r *h.Rand) {
 					p := orb.Point{r.Uniform(-180, 180), r.Uniform(-85.05, 85.05)}
 					switch r.Intn(8) {
@@ -169,7 +169,7 @@ func init() {
 				},
 			},
 			{
-				Name: "project-geometry", Count: h.Fixed(10000, 500000),
+				Name: "project-geometry", Count: h.Fixed(10000, 5000000),
 				Run: func(c *h.Ctx, idx uint64, r *h.Rand) {
 					g := optsOrd.Geometry(r, r.Intn(5))
 					if idx%3 == 0 {
@@ -256,7 +256,7 @@ func init() {
 				},
 			},
 			{
-				Name: "tile-pixels-pow2", Count: h.Fixed(3000, 100000),
+				Name: "tile-pixels-pow2", Count: h.Fixed(3000, 1000000),
 				Run: func(c *h.Ctx, idx uint64, r *h.Rand) {
 					tile := c15tile(r, idx)
 					extent := uint32(256 << uint(r.Intn(6)))
@@ -312,7 +312,7 @@ func init() {
 				},
 			},
 			{
-				Name: "tile-pixels-non-pow2", Count: h.Fixed(1500, 50000),
+				Name: "tile-pixels-non-pow2", Count: h.Fixed(1500, 500000),
 				Run: func(c *h.Ctx, idx uint64, r *h.Rand) {
 					tile := c15tile(r, idx)
 					extent := []uint32{100, 1000, 4095, 4097, 3000, 257, 500, 6000, 10, 3}[r.Intn(10)]
